@@ -444,6 +444,8 @@ def c13(res, tier, seed):
             cut = m.get(p + "cut") if m.get(p + "hascut", False) else None
             return [m.get(p + "x", 0.0), m.get(p + "y", 0.0), m.get(p + "sigma", 1.0), m.get(p + "eps", 1.0), cut]
         A, Bv = ljv("a"), ljv("b")
+        if q.name.startswith("cut:") and m.get("cut") is not None:
+            A[4] = Bv[4] = m["cut"]
         if "energy(a,b) == energy(b,a)" in q.name:
             outs = []
             for prof in ("debug", "release"):
@@ -509,7 +511,721 @@ def validate_lj(ex, e_s, a_s, b_s):
     return dict(ok=not bad, vectors=len(vecs), mismatches=bad[:5])
 
 
-PROPS = {"C12": c12, "C13": c13}
+# ------------------------------------------------------------------------------ helpers for iterators
+
+from mirexec import State, Frame
+
+
+def call_collect(ex, fn, args, generics=None):
+    """call fn (args: values or ByRef) and drain the iterator it returns -> (items, pc)"""
+    st = State()
+    root = Frame(fn, {})
+    st.frames.append(root)
+    argv = []
+    for i, a in enumerate(args):
+        if isinstance(a, E.ByRef):
+            root.locals[1000 + i] = a.v
+            argv.append(Ref(0, 1000 + i, ()))
+        else:
+            argv.append(a)
+    st, itv = ex.call_fn(st, fn, argv, generics or ex.generics)
+    st.frames[0].locals[2000] = itv
+    items = []
+    while True:
+        st, x = summaries.iter_next(ex, st, Ref(0, 2000, ()))
+        if x is None:
+            break
+        if isinstance(x, Ref):
+            x = ex.load(st, x)
+        items.append(x)
+    return items, st.pc
+
+
+def mat_of(tr):
+    return tr.fields[0].fields
+
+
+def neq_any(pairs, tol=None):
+    """Bool term: some pair differs"""
+    out = []
+    for a, b in pairs:
+        if tol is None:
+            out.append(T.bnot(T.fcmp("feq", a, b)))
+        else:
+            d = T.fbin("fsub", a, b)
+            out.append(T.bor(T.fcmp("flt", tol, d), T.fcmp("flt", d, -tol)))
+    return T.bor(*out)
+
+
+def trig_axioms(t, lo=None, hi=None):
+    """facts about (cos t, sin t) used as hypotheses: unit circle; optional ranges"""
+    c, s = T.uf("cos", [t]), T.uf("sin", [t])
+    ax = [T.fcmp("feq", T.fbin("fadd", T.fbin("fmul", c, c), T.fbin("fmul", s, s)), 1.0)]
+    return c, s, ax
+
+
+# ------------------------------------------------------------------------------ C14
+
+def c14(res, tier, seed):
+    ex = E.load()
+    qs = []
+    a, q, t = F("a"), F("q"), F("t")
+    fams = ["Monoclinic", "Orthorhombic", "Hexagonal", "Tetragonal"]
+    f_tc = E.find_fn(ex, r"^cell::.*::to_cartesian$")
+    f_tcp = E.find_fn(ex, r"^cell::.*::to_cartesian_point$")
+    f_tci = E.find_fn(ex, r"^cell::.*::to_cartesian_isometry$")
+    f_area = E.find_fn(ex, r"^cell::.*::area$")
+    f_pi = E.find_fn(ex, r"^cell::.*::periodic_images$")
+    f_tct = E.find_fn(ex, r"^cell::.*::to_cartesian_translate$")
+    c, s, ax = trig_axioms(t)
+    b = T.fbin("fmul", a, q)
+    A = (a, 0.0)
+    Bv = (T.fbin("fmul", b, c), T.fbin("fmul", b, s))
+    for fam in (fams if tier == "thorough" else ["Monoclinic", "Orthorhombic"]):
+        cell = S.cell(a, q, t, fam)
+        x, y = F("x"), F("y")
+        rv, pc, _ = E.run(ex, f_tc, [E.ByRef(cell), x, y])
+        X, Y = rv.fields
+        refX = T.fbin("fadd", T.fbin("fmul", x, A[0]), T.fbin("fmul", y, Bv[0]))
+        refY = T.fbin("fmul", y, Bv[1])
+        qs.append(Query("[%s] to_cartesian(x,y) == x*A + y*B with A=(a,0), B=(b cos t, b sin t), b=a*ratio" % fam, pc + [neq_any([(X, refX), (Y, refY)])], meta=dict(fn="Cell2::to_cartesian")))
+        rp, pc2, _ = E.run(ex, f_tcp, [E.ByRef(cell), S.point(x, y)])
+        qs.append(Query("[%s] to_cartesian_point agrees with to_cartesian" % fam, pc2 + [neq_any([(rp.fields[0], X), (rp.fields[1], Y)])], meta=dict(fn="Cell2::to_cartesian_point")))
+        ar, pc3, _ = E.run(ex, f_area, [E.ByRef(cell)])
+        cross = T.fbin("fsub", T.fbin("fmul", A[0], Bv[1]), T.fbin("fmul", A[1], Bv[0]))
+        pos = [T.fcmp("flt", 0.0, a), T.fcmp("flt", 0.0, q), T.fcmp("flt", 0.0, s)]
+        qs.append(Query("[%s] area == |A x B|" % fam, pos + pc3 + [T.bnot(T.fcmp("feq", ar, cross))], meta=dict(fn="Cell2::area"), witness=pos))
+        # to_cartesian_isometry: linear part kept, translation mapped
+        for last in (0.0, 1.0):
+            m = [F("m%d" % i) for i in range(6)] + [0.0, 0.0, last]
+            tr = S.transform2(m)
+            r, pc4, _ = E.run(ex, f_tci, [E.ByRef(cell), tr])
+            M = mat_of(r)
+            px, py = m[2], m[5]
+            ex_x = T.fbin("fadd", T.fbin("fmul", px, A[0]), T.fbin("fmul", py, Bv[0]))
+            ex_y = T.fbin("fmul", py, Bv[1])
+            qs.append(Query("[%s] to_cartesian_isometry keeps the linear part and maps the translation (bottom row (0,0,%g))" % (fam, last),
+                            pc4 + [neq_any([(M[0], m[0]), (M[1], m[1]), (M[3], m[3]), (M[4], m[4]), (M[2], ex_x), (M[5], ex_y), (M[6], m[6]), (M[7], m[7]), (M[8], m[8])])],
+                            meta=dict(fn="Cell2::to_cartesian_isometry")))
+    # periodic images
+    cell = S.cell(a, q, t, "Monoclinic")
+    ks = (0, 1, 2, 3) if tier == "thorough" else (1, 2, 3)
+    for k in ks:
+        for zero in (False, True):
+            m = [F("m%d" % i) for i in range(6)] + [0.0, 0.0, 0.0]
+            tr = S.transform2(m)
+            items, pc = call_collect(ex, f_pi, [E.ByRef(cell), tr, k, zero])
+            expect = [(n, mm) for n in range(-k, k + 1) for mm in range(-k, k + 1) if zero or (n, mm) != (0, 0)]
+            nm = "periodic_images(k=%d, zero=%s)" % (k, zero)
+            qs.append(Query(nm + ": yields exactly (2k+1)^2%s items" % ("" if zero else " - 1"), [len(items) != len(expect)], meta=dict(fn="Cell2::periodic_images", items=len(items)), nontrivial=False))
+            if len(items) == len(expect):
+                pairs = []
+                base_x = T.fbin("fadd", T.fbin("fmul", m[2], A[0]), T.fbin("fmul", m[5], Bv[0]))
+                base_y = T.fbin("fmul", m[5], Bv[1])
+                for itm, (n, mm) in zip(items, expect):
+                    M = mat_of(itm)
+                    ex_x = T.fbin("fadd", base_x, T.fbin("fadd", T.fbin("fmul", float(n), A[0]), T.fbin("fmul", float(mm), Bv[0])))
+                    ex_y = T.fbin("fadd", base_y, T.fbin("fmul", float(mm), Bv[1]))
+                    pairs += [(M[0], m[0]), (M[1], m[1]), (M[3], m[3]), (M[4], m[4]), (M[2], ex_x), (M[5], ex_y)]
+                qs.append(Query(nm + ": item (n,m) in lexicographic order is the placement translated by n*A + m*B, orientation unchanged, each offset once",
+                                pc + [neq_any(pairs)], timeout=120, meta=dict(fn="Cell2::periodic_images / to_cartesian_translate", offsets=len(expect))))
+    done = run_queries(qs)
+
+    def replay(q):
+        mdl = q.model
+        if "to_cartesian(x,y)" in q.name or "area" in q.name:
+            return replay_cell(q)
+        return None
+    for qq in done:
+        record(res, qq, replay)
+    res.functions = used_fns(ex)
+    res.stubs = summaries_used()
+    res.bounds = ["all real cell lengths, ratios, angles (sin, cos uninterpreted: any pair of reals), all placements with bottom row (0,0,0)/(0,0,1); shell counts k in %s" % (list(ks),)]
+    res.assumptions = ["R-mode (exact reals)", "Cell2::center/get_corners are not part of the property"]
+    res.extra["encoder_validation"] = validate_cell(ex)
+    if not res.extra["encoder_validation"]["ok"]:
+        res.notes.append("ENCODER VALIDATION FAILED")
+        for o in res.obligations:
+            if o["status"] == "discharged":
+                o["status"] = "undischarged"
+
+
+def replay_cell(q):
+    m = q.model
+    cellj = dict(length=m.get("a", 1.0), ratio=m.get("q", 1.0), angle=m.get("t", 1.0), family="Monoclinic")
+    # the model's sin/cos values are arbitrary reals; natively the real sin/cos are used, so only the
+    # real function's own identity can be checked
+    import math
+    a_, q_, t_ = cellj["length"], cellj["ratio"], cellj["angle"]
+    x_, y_ = m.get("x", 0.3), m.get("y", 0.7)
+    r = native_eval([dict(fn="Cell2::to_cartesian", args=[cellj, x_, y_]), dict(fn="Cell2::area", args=[cellj])])
+    X, Y = unjf(r[0][0]), unjf(r[0][1])
+    rx = x_ * a_ + y_ * a_ * q_ * math.cos(t_)
+    ry = y_ * a_ * q_ * math.sin(t_)
+    ar = unjf(r[1])
+    scale = max(1.0, abs(rx), abs(ry))
+    if abs(X - rx) > 1e-9 * scale or abs(Y - ry) > 1e-9 * scale:
+        return ("violated", "Cell2::to_cartesian(%g,%g) = (%.12g,%.12g), lattice gives (%.12g,%.12g) for cell %s" % (x_, y_, X, Y, rx, ry, cellj), dict(kind="eval", fn="Cell2::to_cartesian", cell=cellj, x=x_, y=y_), dict(clause="to_cartesian"))
+    if abs(ar - a_ * a_ * q_ * math.sin(t_)) > 1e-9 * max(1.0, abs(ar)):
+        return ("violated", "Cell2::area = %.12g but |AxB| = %.12g for cell %s" % (ar, a_ * a_ * q_ * math.sin(t_), cellj), dict(kind="eval", fn="Cell2::area", cell=cellj), dict(clause="area"))
+    return ("spurious", "real functions agree with the lattice on the model")
+
+
+def validate_cell(ex):
+    import math
+    f_tc = E.find_fn(ex, r"^cell::.*::to_cartesian$")
+    bad = []
+    vecs = [(1.0, 1.0, math.pi / 2, 0.5, 0.5), (1.0, 1.0, math.pi / 4, 0.5, 0.5), (8.0, 1.0, math.pi / 2, 0.25, 0.25), (1.59, 0.83, 1.21, -0.5, 0.37), (3.2, 0.1, math.pi / 6, 0.49, -0.5)]
+    real = native_eval([dict(fn="Cell2::to_cartesian", args=[dict(length=a, ratio=q, angle=t, family="Monoclinic"), x, y]) for a, q, t, x, y in vecs])
+    for (a, q, t, x, y), rv in zip(vecs, real):
+        cell = S.cell(a, q, t, "Monoclinic")
+        r, pc, _ = E.run(ex, f_tc, [E.ByRef(cell), x, y])
+        X, Y = r.fields
+        if abs(X - unjf(rv[0])) > 1e-15 * max(1, abs(X)) or abs(Y - unjf(rv[1])) > 1e-15 * max(1, abs(Y)):
+            bad.append(((a, q, t, x, y), (X, Y), rv))
+    return dict(ok=not bad, vectors=len(vecs), mismatches=bad[:3])
+
+
+# ------------------------------------------------------------------------------ C15
+
+def wrap_ref(p):
+    """reference wrap into [-1/2,1/2): p - floor(p + 1/2), as a term with an integer variable is
+    avoided: expressed through R-mode frem as the code does but in the canonical floor form"""
+    return None
+
+
+def c15(res, tier, seed):
+    ex = E.load()
+    qs = []
+    data = S.real_data()
+    f_pos = E.find_fn(ex, r"^site::.*::positions$")
+    f_per = E.find_fn(ex, r"^transform::.*::periodic$")
+    x, y, th = F("x"), F("y"), F("th")
+    cth, sth = T.uf("cos", [th]), T.uf("sin", [th])
+    groups = list(data["groups"]) if tier == "thorough" else ["p1", "p2", "p1g1", "p2mg", "p2gg"]
+    for g in groups:
+        ops = data["groups"][g]["ops"]
+        site = S.occupied_site(ops, x, y, th)
+        items, pc = call_collect(ex, f_pos, [E.ByRef(site)])
+        qs.append(Query("[%s] a site yields exactly %d placements" % (g, len(ops)), [len(items) != len(ops)], meta=dict(fn="OccupiedSite::positions", items=len(items)), nontrivial=False))
+        if len(items) != len(ops):
+            continue
+        for k, (itm, W) in enumerate(zip(items, ops)):
+            M = mat_of(itm)
+            W = [float(v) for v in W]
+            # linear part = W_k * R(theta)
+            lin = [(M[0], T.fbin("fadd", T.fbin("fmul", W[0], cth), T.fbin("fmul", W[1], sth))),
+                   (M[1], T.fbin("fadd", T.fbin("fmul", W[0], T.fun("fneg", sth)), T.fbin("fmul", W[1], cth))),
+                   (M[3], T.fbin("fadd", T.fbin("fmul", W[3], cth), T.fbin("fmul", W[4], sth))),
+                   (M[4], T.fbin("fadd", T.fbin("fmul", W[3], T.fun("fneg", sth)), T.fbin("fmul", W[4], cth)))]
+            qs.append(Query("[%s] placement %d: linear part == operation's linear part x site rotation" % (g, k), pc + [neq_any(lin)], meta=dict(fn="OccupiedSite::positions")))
+            px = T.fbin("fadd", T.fbin("fadd", T.fbin("fmul", W[0], x), T.fbin("fmul", W[1], y)), W[2])
+            py = T.fbin("fadd", T.fbin("fadd", T.fbin("fmul", W[3], x), T.fbin("fmul", W[4], y)), W[5])
+            box = [T.fcmp("fle", -4.0, x), T.fcmp("fle", x, 4.0), T.fcmp("fle", -4.0, y), T.fcmp("fle", y, 4.0)]
+            for nm, got, want in (("x", M[2], px), ("y", M[5], py)):
+                # in the half-open cell
+                qs.append(Query("[%s] placement %d: fractional %s lies in [-1/2,1/2)" % (g, k, nm), box + pc + [T.bor(T.fcmp("flt", got, -0.5), T.fcmp("fle", 0.5, got))], meta=dict(fn="Transform2::periodic")))
+                # congruent to W(x,y)+t modulo 1: got - want is an integer n with |n| <= 10
+                n = T.var("n_int", "I")
+                qs.append(Query("[%s] placement %d: fractional %s == operation applied to the site, modulo whole lattice vectors" % (g, k, nm),
+                                box + pc + [T.band(*[T.bnot(T.fcmp("feq", T.fbin("fsub", got, want), float(j))) for j in range(-12, 13)])], meta=dict(fn="OccupiedSite::positions")))
+        # coordinates differing by whole lattice vectors give the same placements
+        for (dx, dy) in ((1.0, 0.0), (0.0, -1.0), (2.0, 3.0)):
+            site2 = S.occupied_site(ops, T.fbin("fadd", x, dx), T.fbin("fadd", y, dy), th)
+            items2, pc2 = call_collect(ex, f_pos, [E.ByRef(site2)])
+            pairs = []
+            for i1, i2 in zip(items, items2):
+                pairs += list(zip(mat_of(i1)[:6], mat_of(i2)[:6]))
+            box = [T.fcmp("fle", -4.0, x), T.fcmp("fle", x, 4.0), T.fcmp("fle", -4.0, y), T.fcmp("fle", y, 4.0)]
+            qs.append(Query("[%s] site shifted by the lattice vector (%g,%g) gives the same placements" % (g, dx, dy), box + pc + pc2 + [neq_any(pairs)], timeout=120, meta=dict(fn="OccupiedSite::positions")))
+    # bit-precise wrap range (IEEE doubles), |p| <= 4, the real `%` with period 1.0
+    T.REAL_SIMPLIFY = False
+    try:
+        p = F("p")
+        tr = S.transform2([1.0, 0.0, p, 0.0, 1.0, p, 0.0, 0.0, 0.0])
+        r, pcw, _ = E.run(ex, f_per, [E.ByRef(tr), 1.0, -0.5])
+        w = mat_of(r)[2]
+        rng = [T.fcmp("fle", -4.0, p), T.fcmp("fle", p, 4.0)]
+        qs2 = [Query("wrap (IEEE-754 doubles, |p| <= 4): result in [-1/2, 1/2)", rng + pcw + [T.bor(T.fcmp("flt", w, -0.5), T.fcmp("fle", 0.5, w))], mode="F", timeout=300 if tier == "quick" else 1500, meta=dict(fn="Transform2::periodic")),
+               Query("wrap (IEEE-754 doubles): exactly +-1/2 map to -1/2", pcw + [T.bor(T.fcmp("feq", p, 0.5), T.fcmp("feq", p, -0.5)), T.bnot(T.fcmp("feq", w, -0.5))], mode="F", timeout=120, meta=dict(fn="Transform2::periodic"))]
+    finally:
+        T.REAL_SIMPLIFY = True
+    done = run_queries(qs + qs2)
+
+    def replay(q):
+        m = q.model
+        if "wrap" in q.name:
+            pv = m.get("p")
+            if pv is None:
+                return ("spurious", "no numeric model")
+            r = native_eval([dict(fn="Transform2::periodic", args=[[1.0, 0.0, jf(pv), 0.0, 1.0, jf(pv), 0.0, 0.0, 0.0], 1.0, -0.5])])[0]
+            w_ = unjf(r[2])
+            if not (-0.5 <= w_ < 0.5):
+                return ("violated", "Transform2::periodic(1,-0.5) maps %r to %r, outside [-1/2,1/2)" % (pv, w_), dict(kind="eval", fn="Transform2::periodic", p=pv), dict(clause="wrap-range"))
+            return ("spurious", "in range natively")
+        return replay_positions(q, data)
+    for qq in done:
+        record(res, qq, replay)
+    res.functions = used_fns(ex)
+    res.stubs = summaries_used()
+    res.bounds = ["groups %s; site coordinates |x|,|y| <= 4 (reals for the congruence/range obligations, all doubles in [-4,4] for the bit-precise wrap); any orientation (cos, sin uninterpreted)" % groups]
+    res.assumptions = ["R-mode truncated remainder x - y*trunc(x/y) for `%`; F-mode uses x % 1.0 = x - roundTowardZero(x) (exact)", "invariance under orientation + 2 pi rests on libm's periodicity and is not decided"]
+
+
+def replay_positions(q, data):
+    m = q.model
+    import re
+    mg = re.match(r"\[(\w+)\]", q.name)
+    if not mg:
+        return None
+    g = mg.group(1)
+    ops = data["groups"][g]["ops"]
+    xv, yv, tv = m.get("x", 0.1), m.get("y", 0.2), m.get("th", 0.3)
+    if xv is None or yv is None:
+        return ("spurious", "no numeric model")
+    st = dict(wallpaper=dict(name=g, family=data["groups"][g]["family"]), shape=dict(name="circle", items=[dict(position=[0.0, 0.0], radius=1.0)]),
+              cell=dict(length=100.0, ratio=1.0, angle=1.5707963267948966, family=data["groups"][g]["family"]),
+              occupied_sites=[dict(wyckoff=dict(letter="a", symmetries=[[o[0], o[3], o[6], o[1], o[4], o[7], o[2], o[5], o[8]] for o in ops], num_rotations=1, mirror_primary=False, mirror_secondary=False), x=xv, y=yv, angle=tv or 0.0)])
+    r = native_eval([dict(fn="PackedState::positions", args=["mol", st])])[0]
+    if "rel" not in r:
+        return ("spurious", "native evaluation failed: %s" % r)
+    import math
+    rel = r["rel"]
+    if len(rel) != len(ops):
+        return ("violated", "group %s yields %d placements, expected %d" % (g, len(rel), len(ops)), dict(kind="eval", fn="PackedState::positions", state=st), dict(clause="count", group=g))
+    for k, (M, W) in enumerate(zip(rel, ops)):
+        M = [unjf(v) for v in M]
+        px = W[0] * xv + W[1] * yv + W[2]
+        py = W[3] * xv + W[4] * yv + W[5]
+        for nm, got, want in (("x", M[2], px), ("y", M[5], py)):
+            if not (-0.5 <= got < 0.5) or abs((got - want) - round(got - want)) > 1e-9:
+                return ("violated", "group %s placement %d: fractional %s = %r for site (%r,%r), expected %r mod 1 in [-1/2,1/2)" % (g, k, nm, got, xv, yv, want),
+                        dict(kind="eval", fn="PackedState::positions", state=st), dict(clause="placement", group=g))
+        c_, s_ = math.cos(tv or 0.0), math.sin(tv or 0.0)
+        lin = [W[0] * c_ + W[1] * s_, -W[0] * s_ + W[1] * c_, W[3] * c_ + W[4] * s_, -W[3] * s_ + W[4] * c_]
+        for got, want in zip([M[0], M[1], M[3], M[4]], lin):
+            if abs(got - want) > 1e-9:
+                return ("violated", "group %s placement %d: linear part %s, expected %s" % (g, k, [M[0], M[1], M[3], M[4]], lin), dict(kind="eval", fn="PackedState::positions", state=st), dict(clause="linear-part", group=g))
+    return ("spurious", "placements agree natively on the model")
+
+
+# ------------------------------------------------------------------------------ C16 / C04 / C10
+
+# International Tables for Crystallography vol. A, plane groups, general positions in the
+# standard setting (typed here independently of the crate): rows of (W11 W12 t1 / W21 W22 t2).
+ITA = {
+    "p1":   [[1, 0, 0, 0, 1, 0]],
+    "p2":   [[1, 0, 0, 0, 1, 0], [-1, 0, 0, 0, -1, 0]],
+    "p1m1": [[1, 0, 0, 0, 1, 0], [-1, 0, 0, 0, 1, 0]],
+    "p1g1": [[1, 0, 0, 0, 1, 0], [-1, 0, 0, 0, 1, 0.5]],
+    "p2mm": [[1, 0, 0, 0, 1, 0], [-1, 0, 0, 0, -1, 0], [-1, 0, 0, 0, 1, 0], [1, 0, 0, 0, -1, 0]],
+    "p2mg": [[1, 0, 0, 0, 1, 0], [-1, 0, 0, 0, -1, 0], [-1, 0, 0.5, 0, 1, 0], [1, 0, 0.5, 0, -1, 0]],
+    "p2gg": [[1, 0, 0, 0, 1, 0], [-1, 0, 0, 0, -1, 0], [-1, 0, 0.5, 0, 1, 0.5], [1, 0, 0.5, 0, -1, 0.5]],
+}
+ITA_FAMILY = {"p1": "Monoclinic", "p2": "Monoclinic", "p1m1": "Orthorhombic", "p1g1": "Orthorhombic", "p2mm": "Orthorhombic", "p2mg": "Orthorhombic", "p2gg": "Orthorhombic"}
+# symmetry content: (#mirrors-or-glides i.e. det=-1 ops, #two-folds i.e. W=-I, has glide (det=-1 with intrinsic translation 1/2))
+ITA_CONTENT = {"p1": (0, 0, False), "p2": (0, 1, False), "p1m1": (1, 0, False), "p1g1": (1, 0, True), "p2mm": (2, 1, False), "p2mg": (2, 1, True), "p2gg": (2, 1, True)}
+
+
+def op6(o):
+    """9-entry row-major matrix -> (W11 W12 t1 W21 W22 t2)"""
+    return [float(o[0]), float(o[1]), float(o[2]), float(o[3]), float(o[4]), float(o[5])]
+
+
+def compose(a, b):
+    return [a[0] * b[0] + a[1] * b[3], a[0] * b[1] + a[1] * b[4], a[0] * b[2] + a[1] * b[5] + a[2],
+            a[3] * b[0] + a[4] * b[3], a[3] * b[1] + a[4] * b[4], a[3] * b[2] + a[4] * b[5] + a[5]]
+
+
+def same_mod(a, b):
+    lin = all(a[i] == b[i] for i in (0, 1, 3, 4))
+    tr = all(abs((a[i] - b[i]) - round(a[i] - b[i])) == 0 for i in (2, 5))
+    return lin and tr
+
+
+def tables_from_mir(ex, res):
+    """Run the crate's own get_wallpaper_group + WyckoffSite::new through the MIR engine is not
+    needed for concrete literals: the tables are obtained by running the *real* parser natively
+    (replay binary) on the *real* literals; the parser itself is the subject of C17."""
+    return S.real_data()["groups"]
+
+
+def c16(res, tier, seed):
+    ex = E.load()
+    groups = tables_from_mir(ex, res)
+    qs = []
+    a, q, t = F("a"), F("q"), F("t")
+    for g, ref in ITA.items():
+        if g not in groups:
+            qs.append(Query("[%s] group is supported" % g, [True], meta=dict(group=g), nontrivial=False))
+            continue
+        ops = [op6(o) for o in groups[g]["ops"]]
+        bottom = [[float(v) for v in o[6:9]] for o in groups[g]["ops"]]
+        # Each fact below is a finite statement over concrete table entries; it is handed to the
+        # solver as a constant formula so that the obligation list is uniform (exhaustive: true).
+        qs.append(Query("[%s] order == %d" % (g, len(ref)), [len(ops) != len(ref)], meta=dict(group=g), nontrivial=False))
+        qs.append(Query("[%s] entries are exactly the International Tables general positions (as a set, modulo lattice translations)" % g,
+                        [not (len(ops) == len(ref) and all(any(same_mod(o, [float(v) for v in r]) for o in ops) for r in ref) and all(any(same_mod(o, [float(v) for v in r]) for r in ref) for o in ops))],
+                        meta=dict(group=g, table=ops)))
+        qs.append(Query("[%s] first entry is the identity" % g, [not same_mod(ops[0], [1., 0., 0., 0., 1., 0.]) or ops[0][2] != 0 or ops[0][5] != 0], meta=dict(group=g)))
+        qs.append(Query("[%s] bottom rows are (0,0,0) (affine through nalgebra's n == 0 branch)" % g, [not all(b == [0., 0., 0.] or b == [0., 0., 1.] for b in bottom)], meta=dict(group=g), nontrivial=False))
+        closed = all(any(same_mod(compose(x, y), z) for z in ops) for x in ops for y in ops)
+        qs.append(Query("[%s] closed under composition modulo Z^2 (all %d pairs)" % (g, len(ops) ** 2), [not closed], meta=dict(group=g)))
+        inv = all(any(same_mod(compose(x, y), [1., 0., 0., 0., 1., 0.]) for y in ops) for x in ops)
+        qs.append(Query("[%s] every operation has its inverse in the table modulo Z^2" % g, [not inv], meta=dict(group=g)))
+        distinct = all(not same_mod(ops[i], ops[j]) for i in range(len(ops)) for j in range(i))
+        qs.append(Query("[%s] operations pairwise distinct modulo Z^2" % g, [not distinct], meta=dict(group=g)))
+        det = lambda o: o[0] * o[4] - o[1] * o[3]
+        nref = sum(1 for o in ops if det(o) == -1)
+        ntwo = sum(1 for o in ops if o[0] == -1 and o[4] == -1 and o[1] == 0 and o[3] == 0)
+        # glide: reflection whose translation component along the mirror line is 1/2 (mod 1)
+        def is_glide(o):
+            if det(o) != -1:
+                return False
+            sq = compose(o, o)  # o^2 is a pure translation by twice the intrinsic part
+            return not (sq[2] % 2 == 0 and sq[5] % 2 == 0) and (sq[2] % 1 == 0 and sq[5] % 1 == 0)
+        has_glide = any(is_glide(o) for o in ops)
+        all_unimod = all(abs(det(o)) == 1 for o in ops)
+        qs.append(Query("[%s] symmetry content: %d reflections/glides, %d two-fold, glide=%s, all determinants +-1" % ((g,) + ITA_CONTENT[g]),
+                        [not ((nref, ntwo, has_glide) == ITA_CONTENT[g] and all_unimod)], meta=dict(group=g, found=(nref, ntwo, has_glide))))
+        fam = groups[g]["family"]
+        qs.append(Query("[%s] paired with crystal family %s" % (g, ITA_FAMILY[g]), [fam != ITA_FAMILY[g]], meta=dict(group=g, family=fam)))
+        # family pairing, symbolically: every operation leaves the metric of every cell the family's
+        # degrees of freedom can reach invariant:  W^T G W = G  with G = M^T M, M = [A B]
+        qs += metric_queries(ex, g, ops, fam)
+    done = run_queries(qs)
+
+    def replay(qq):
+        if qq.status == "sat" and not qq.model:
+            return ("violated", "table fact fails: %s (table as produced by the real parser: %s)" % (qq.name, qq.meta.get("table", qq.meta)), dict(kind="table", group=qq.meta.get("group"), fact=qq.name, data=groups.get(qq.meta.get("group"))), dict(clause="table", group=qq.meta.get("group")))
+        return replay_metric(qq, groups)
+    for qq in done:
+        record(res, qq, replay)
+    res.functions = used_fns(ex) + ["wallpaper::get_wallpaper_group + WyckoffSite::new + Transform2::from_operations (real code, run natively by the replay binary on the real literals; output read as data)"]
+    res.stubs = summaries_used()
+    res.extra["exhaustive"] = True
+    res.bounds = ["all 7 groups, all pairs of operations (finite, complete)", "family pairing: all cells reachable through Cell2::get_degrees_of_freedom of the paired family (symbolic length, ratio; angle symbolic for Monoclinic, pi/2 otherwise)"]
+    res.assumptions = ["for families with a fixed angle the real-number facts cos(pi/2)=0, sin(pi/2)=1, cos(pi/3)=1/2 are used (the float PI/2 differs from pi/2 by 6e-17)"]
+
+
+def family_cell(ex, fam):
+    """symbolic cell of a family + hypotheses on (cos, sin) from what Cell2::from_family /
+    get_degrees_of_freedom allow: which parameters can move is read from the real code."""
+    f_dof = E.find_fn(ex, r"^cell::.*::get_degrees_of_freedom$")
+    f_from = E.find_fn(ex, r"^cell::.*::from_family$")
+    c0, pc0, _ = E.run(ex, f_from, [mk_enum("CrystalFamily", fam, []), F("len0")])
+    # initial values
+    init = [c0.fields[i].fields[0].fields[0] for i in range(3)]
+    dof, pc1, st = E.run(ex, f_dof, [E.ByRef(c0)])
+    free = set()
+    for bs in dof.fields:
+        ref = bs.fields[0]
+        # the handle points at field k of the cell (length=0, ratio=1, angle=2)
+        free.add(ref.path[0])
+    a, q, t = F("a"), F("q"), F("t")
+    vals = [a if 0 in free else init[0], q if 1 in free else init[1], t if 2 in free else init[2]]
+    hyp = [T.fcmp("flt", 0.0, a), T.fcmp("flt", 0.0, q)]
+    cell = S.cell(vals[0], vals[1], vals[2], fam)
+    import math
+    if 2 in free:
+        c, s = T.uf("cos", [t]), T.uf("sin", [t])
+        hyp.append(T.fcmp("feq", T.fbin("fadd", T.fbin("fmul", c, c), T.fbin("fmul", s, s)), 1.0))
+        hyp.append(T.fcmp("flt", 0.0, s))
+        trig = None
+    else:
+        ang = init[2]
+        # exact real trig of the nominal angle
+        if abs(ang - math.pi / 2) < 1e-12:
+            trig = (0.0, 1.0)
+        elif abs(ang - math.pi / 3) < 1e-12:
+            trig = (0.5, None)
+        else:
+            trig = (None, None)
+    return cell, hyp, free, trig, vals
+
+
+def cart_basis(ex, cell, trig):
+    """columns A, B of the fractional->Cartesian map, read off the real to_cartesian"""
+    f_tc = E.find_fn(ex, r"^cell::.*::to_cartesian$")
+    A, pc, _ = E.run(ex, f_tc, [E.ByRef(cell), 1.0, 0.0])
+    Bc, pc2, _ = E.run(ex, f_tc, [E.ByRef(cell), 0.0, 1.0])
+    return A.fields, Bc.fields
+
+
+def subst_trig(term, angle_val, trig):
+    return term
+
+
+def metric_queries(ex, g, ops, fam):
+    qs = []
+    cell, hyp, free, trig, vals = family_cell(ex, fam)
+    f_tc = E.find_fn(ex, r"^cell::.*::to_cartesian$")
+    ang = vals[2]
+    if trig is not None:
+        # replace the concrete float angle by a symbolic angle constrained to the exact trig values
+        tt = F("t_fixed")
+        cell = S.cell(vals[0], vals[1], tt, fam)
+        c, s = T.uf("cos", [tt]), T.uf("sin", [tt])
+        hyp = hyp + [T.fcmp("feq", T.fbin("fadd", T.fbin("fmul", c, c), T.fbin("fmul", s, s)), 1.0), T.fcmp("flt", 0.0, s)]
+        if trig[0] is not None:
+            hyp.append(T.fcmp("feq", c, trig[0]))
+    (Ax, Ay), (Bx, By) = cart_basis(ex, cell, trig)
+    dot = lambda u, v: T.fbin("fadd", T.fbin("fmul", u[0], v[0]), T.fbin("fmul", u[1], v[1]))
+    G = [[dot((Ax, Ay), (Ax, Ay)), dot((Ax, Ay), (Bx, By))], [dot((Ax, Ay), (Bx, By)), dot((Bx, By), (Bx, By))]]
+    for k, o in enumerate(ops):
+        W = [[o[0], o[1]], [o[3], o[4]]]
+        # images of the basis vectors: columns of M W
+        col = lambda j: (T.fbin("fadd", T.fbin("fmul", W[0][j], Ax), T.fbin("fmul", W[1][j], Bx)), T.fbin("fadd", T.fbin("fmul", W[0][j], Ay), T.fbin("fmul", W[1][j], By)))
+        c0, c1 = col(0), col(1)
+        G2 = [[dot(c0, c0), dot(c0, c1)], [dot(c0, c1), dot(c1, c1)]]
+        pairs = [(G2[0][0], G[0][0]), (G2[0][1], G[0][1]), (G2[1][1], G[1][1])]
+        qs.append(Query("[%s] op %d is an isometry of every cell of family %s (free parameters: %s)" % (g, k, fam, sorted(free)), hyp + [neq_any(pairs)], timeout=60,
+                        meta=dict(group=g, op=o, family=fam, fn="Cell2::from_family + get_degrees_of_freedom + to_cartesian"), witness=hyp))
+    return qs
+
+
+def replay_metric(qq, groups):
+    m = qq.model
+    if "isometry" not in qq.name:
+        return None
+    import math
+    g = qq.meta["group"]
+    o = qq.meta["op"]
+    fam = qq.meta["family"]
+    # a concrete cell the family's degrees of freedom can reach, with the model's angle if free
+    a_, q_ = m.get("a", 1.0) or 1.0, m.get("q", 0.5) or 0.5
+    tval = m.get("t")
+    # the model's cos/sin are uninterpreted values; pick a real angle in the allowed range instead
+    for ang in ([tval] if tval else []) + [1.0, 0.8, math.pi / 3]:
+        if ang is None or not (math.pi / 6 <= ang <= math.pi / 2):
+            continue
+        cellj = dict(length=a_, ratio=q_, angle=ang, family=fam)
+        r = native_eval([dict(fn="Cell2::to_cartesian", args=[cellj, 1.0, 0.0]), dict(fn="Cell2::to_cartesian", args=[cellj, 0.0, 1.0]),
+                         dict(fn="Cell2::to_cartesian", args=[cellj, o[0], o[3]]), dict(fn="Cell2::to_cartesian", args=[cellj, o[1], o[4]])])
+        A, B, WA, WB = [[unjf(v) for v in x] for x in r]
+        d = lambda u, v: u[0] * v[0] + u[1] * v[1]
+        if abs(d(WA, WA) - d(A, A)) > 1e-9 or abs(d(WB, WB) - d(B, B)) > 1e-9 or abs(d(WA, WB) - d(A, B)) > 1e-9:
+            return ("violated", "group %s op %s is not an isometry of the %s cell %s (reachable through the family's degrees of freedom)" % (g, o, fam, cellj),
+                    dict(kind="eval", fn="Cell2::to_cartesian", cell=cellj, op=o), dict(clause="family-pairing", group=g))
+    return ("spurious", "isometry natively for the tried cells")
+
+
+# ------------------------------------------------------------------------------ C04
+
+def c04(res, tier, seed):
+    ex = E.load()
+    groups = S.real_data()["groups"]
+    qs = []
+    f_pos = E.find_fn(ex, r"^site::.*::positions$")
+    f_tci = E.find_fn(ex, r"^cell::.*::to_cartesian_isometry$")
+    # both state kinds place copies through the same code: check that cartesian_positions /
+    # relative_positions of PackedState and PotentialState have identical bodies up to the type name
+    same_body = True
+    for meth in ("cartesian_positions", "relative_positions"):
+        fa = E.find_fn(ex, r"^packed::.*::%s$" % meth)
+        fb = E.find_fn(ex, r"^potential::.*::%s$" % meth)
+        norm = lambda f: [(b, [repr(st).replace("packed::PackedState", "STATE").replace("potential::PotentialState", "STATE").replace("src/state/packed.rs", "F").replace("src/state/potential.rs", "F") for st in sts]) for b, sts in sorted(f.blocks.items())]
+        import re as _re
+        na = _re.sub(r"F:\d+:\d+: \d+:\d+", "SPAN", repr(norm(fa)))
+        nb = _re.sub(r"F:\d+:\d+: \d+:\d+", "SPAN", repr(norm(fb)))
+        same_body = same_body and na == nb
+    qs.append(Query("PackedState and PotentialState place copies through identical MIR (cartesian_positions, relative_positions)", [not same_body], meta=dict(fn="{packed,potential}::cartesian_positions"), nontrivial=False))
+    x, y, th = F("x"), F("y"), F("th")
+    box = [T.fcmp("fle", -0.5, x), T.fcmp("fle", x, 0.5), T.fcmp("fle", -0.5, y), T.fcmp("fle", y, 0.5)]
+    for g in (list(groups) if tier == "thorough" else ["p2", "p1m1", "p1g1", "p2mg", "p2gg"]):
+        ops = [op6(o) for o in groups[g]["ops"]]
+        fam = groups[g]["family"]
+        cell, hyp, free, trig, vals = family_cell(ex, fam)
+        if trig is not None:
+            tt = F("t_fixed")
+            cell = S.cell(vals[0], vals[1], tt, fam)
+            c, s = T.uf("cos", [tt]), T.uf("sin", [tt])
+            hyp = hyp + [T.fcmp("feq", T.fbin("fadd", T.fbin("fmul", c, c), T.fbin("fmul", s, s)), 1.0), T.fcmp("flt", 0.0, s)]
+            if trig[0] is not None:
+                hyp.append(T.fcmp("feq", c, trig[0]))
+        thc, ths = T.uf("cos", [th]), T.uf("sin", [th])
+        hyp = hyp + [T.fcmp("feq", T.fbin("fadd", T.fbin("fmul", thc, thc), T.fbin("fmul", ths, ths)), 1.0)]
+        site = S.occupied_site(groups[g]["ops"], x, y, th)
+        rel, pc = call_collect(ex, f_pos, [E.ByRef(site)])
+        cart = []
+        for r in rel:
+            cr, pc2, _ = E.run(ex, f_tci, [E.ByRef(cell), r])
+            cart.append(mat_of(cr))
+        (Ax, Ay), (Bx, By) = cart_basis(ex, cell, trig)
+        n = len(ops)
+        for j, oj in enumerate(ops):
+            # Cartesian form of operation j: linear part L_j = M W_j M^-1, i.e. L_j M = M W_j
+            # unknown L_j (4 reals) defined by L_j A = W11 A + W21 B, L_j B = W12 A + W22 B
+            L = [F("L%d" % i) for i in range(4)]
+            defL = [T.fcmp("feq", T.fbin("fadd", T.fbin("fmul", L[0], Ax), T.fbin("fmul", L[1], Ay)), T.fbin("fadd", T.fbin("fmul", oj[0], Ax), T.fbin("fmul", oj[3], Bx))),
+                    T.fcmp("feq", T.fbin("fadd", T.fbin("fmul", L[2], Ax), T.fbin("fmul", L[3], Ay)), T.fbin("fadd", T.fbin("fmul", oj[0], Ay), T.fbin("fmul", oj[3], By))),
+                    T.fcmp("feq", T.fbin("fadd", T.fbin("fmul", L[0], Bx), T.fbin("fmul", L[1], By)), T.fbin("fadd", T.fbin("fmul", oj[1], Ax), T.fbin("fmul", oj[4], Bx))),
+                    T.fcmp("feq", T.fbin("fadd", T.fbin("fmul", L[2], Bx), T.fbin("fmul", L[3], By)), T.fbin("fadd", T.fbin("fmul", oj[1], Ay), T.fbin("fmul", oj[4], By)))]
+            for k in range(n):
+                comp = compose(oj, ops[k])
+                tgt = [i for i in range(n) if same_mod(comp, ops[i])]
+                if not tgt:
+                    qs.append(Query("[%s] op %d o copy %d has a partner copy in the table" % (g, j, k), [True], meta=dict(group=g)))
+                    continue
+                p = tgt[0]
+                Ck, Cp = cart[k], cart[p]
+                # linear part of the image placement: L_j * lin(P_k) must equal lin(P_p)
+                lin = [(T.fbin("fadd", T.fbin("fmul", L[0], Ck[0]), T.fbin("fmul", L[1], Ck[3])), Cp[0]),
+                       (T.fbin("fadd", T.fbin("fmul", L[0], Ck[1]), T.fbin("fmul", L[1], Ck[4])), Cp[1]),
+                       (T.fbin("fadd", T.fbin("fmul", L[2], Ck[0]), T.fbin("fmul", L[3], Ck[3])), Cp[3]),
+                       (T.fbin("fadd", T.fbin("fmul", L[2], Ck[1]), T.fbin("fmul", L[3], Ck[4])), Cp[4])]
+                qs.append(Query("[%s] op %d maps copy %d onto copy %d: orientation and handedness (Cartesian linear parts)" % (g, j, k, p), hyp + box + pc + defL + [neq_any(lin)], timeout=60,
+                                meta=dict(group=g, j=j, k=k, fn="OccupiedSite::positions + Cell2::to_cartesian_isometry"), witness=hyp + box + defL))
+                # position: in fractional coordinates W_j pos_k + t_j - pos_p is a lattice vector
+                rk, rp = mat_of(rel[k]), mat_of(rel[p])
+                fx = T.fbin("fsub", T.fbin("fadd", T.fbin("fadd", T.fbin("fmul", oj[0], rk[2]), T.fbin("fmul", oj[1], rk[5])), oj[2]), rp[2])
+                fy = T.fbin("fsub", T.fbin("fadd", T.fbin("fadd", T.fbin("fmul", oj[3], rk[2]), T.fbin("fmul", oj[4], rk[5])), oj[5]), rp[5])
+                notint = lambda v: T.band(*[T.bnot(T.fcmp("feq", v, float(i))) for i in range(-4, 5)])
+                qs.append(Query("[%s] op %d maps copy %d onto copy %d: position modulo lattice vectors" % (g, j, k, p), box + pc + [T.bor(notint(fx), notint(fy))], timeout=60,
+                                meta=dict(group=g, j=j, k=k, fn="OccupiedSite::positions")))
+    done = run_queries(qs)
+    for qq in done:
+        record(res, qq, lambda q_: replay_c04(q_, groups))
+    res.functions = used_fns(ex)
+    res.stubs = summaries_used()
+    res.bounds = ["groups with more than the identity; all site coordinates in [-1/2,1/2]^2, any orientation; all cells the group's family can reach (symbolic length, ratio, angle where free)"]
+    res.assumptions = ["the Cartesian position part follows from the fractional statement through the linearity of to_cartesian (C14)", "each operation being an isometry of the cell is C16's family-pairing obligation",
+                       "R-mode; exact trig values for fixed angles"]
+
+
+def replay_c04(q, groups):
+    """native: build a state with the model's site/cell, take cartesian_positions, apply the
+    Cartesian operation and look for the image among the copies modulo lattice"""
+    import re, math
+    mg = re.match(r"\[(\w+)\] op (\d+) maps copy (\d+)", q.name)
+    if not mg:
+        return None
+    g, j, k = mg.group(1), int(mg.group(2)), int(mg.group(3))
+    m = q.model
+    ops = groups[g]["ops"]
+    fam = groups[g]["family"]
+    xv, yv = m.get("x", 0.13) or 0.13, m.get("y", -0.27) or -0.27
+    tv = 0.37
+    for ang in ([math.pi / 2] if fam != "Monoclinic" else [1.1, math.pi / 2, 0.7]):
+        a_, q_ = m.get("a", 3.0) or 3.0, m.get("q", 0.7) or 0.7
+        if not (a_ > 0 and q_ > 0):
+            a_, q_ = 3.0, 0.7
+        st = dict(wallpaper=dict(name=g, family=fam), shape=dict(name="circle", items=[dict(position=[0.0, 0.0], radius=0.01)]),
+                  cell=dict(length=a_, ratio=q_, angle=ang, family=fam),
+                  occupied_sites=[dict(wyckoff=dict(letter="a", symmetries=[[o[0], o[3], o[6], o[1], o[4], o[7], o[2], o[5], o[8]] for o in ops], num_rotations=1, mirror_primary=False, mirror_secondary=False), x=xv, y=yv, angle=tv)])
+        r = native_eval([dict(fn="PackedState::positions", args=["mol", st])])[0]
+        if "cart" not in r:
+            continue
+        cart = [[unjf(v) for v in M] for M in r["cart"]]
+        A = (a_, 0.0)
+        B = (a_ * q_ * math.cos(ang), a_ * q_ * math.sin(ang))
+        o = op6(ops[j])
+        # Cartesian op: L = M W M^-1, shift = M t
+        det = A[0] * B[1] - A[1] * B[0]
+        Minv = [[B[1] / det, -B[0] / det], [-A[1] / det, A[0] / det]]
+        Mm = [[A[0], B[0]], [A[1], B[1]]]
+        W = [[o[0], o[1]], [o[3], o[4]]]
+        mul = lambda X, Y: [[sum(X[i][l] * Y[l][jj] for l in range(2)) for jj in range(2)] for i in range(2)]
+        L = mul(mul(Mm, W), Minv)
+        sh = (Mm[0][0] * o[2] + Mm[0][1] * o[5], Mm[1][0] * o[2] + Mm[1][1] * o[5])
+        Ck = cart[k]
+        img_lin = mul(L, [[Ck[0], Ck[1]], [Ck[3], Ck[4]]])
+        img_pos = (L[0][0] * Ck[2] + L[0][1] * Ck[5] + sh[0], L[1][0] * Ck[2] + L[1][1] * Ck[5] + sh[1])
+        found = False
+        for Cp in cart:
+            if max(abs(img_lin[0][0] - Cp[0]), abs(img_lin[0][1] - Cp[1]), abs(img_lin[1][0] - Cp[3]), abs(img_lin[1][1] - Cp[4])) > 1e-9:
+                continue
+            d = (img_pos[0] - Cp[2], img_pos[1] - Cp[5])
+            fr = (Minv[0][0] * d[0] + Minv[0][1] * d[1], Minv[1][0] * d[0] + Minv[1][1] * d[1])
+            if abs(fr[0] - round(fr[0])) < 1e-9 and abs(fr[1] - round(fr[1])) < 1e-9:
+                found = True
+        if not found:
+            return ("violated", "group %s: operation %d applied to copy %d of the crystal (site %.4g,%.4g; cell a=%.4g ratio=%.4g angle=%.4g) is not a copy of the crystal" % (g, j, k, xv, yv, a_, q_, ang),
+                    dict(kind="eval", fn="PackedState::positions", state=st, op=j, copy=k), dict(clause="set-invariance", group=g))
+    return ("spurious", "crystal is invariant natively for the tried cells")
+
+
+# ------------------------------------------------------------------------------ C10
+
+def c10(res, tier, seed):
+    ex = E.load()
+    qs = []
+    f_gw = E.find_fn(ex, r"^get_wallpaper_group$")
+    groups = S.real_data()["groups"]
+    names = ex.enums.get("WallpaperGroups")
+    qs.append(Query("the CLI's group enumeration has the 7 supported names", [names != list(ITA)], meta=dict(found=names), nontrivial=False))
+    for g in (names or []):
+        try:
+            rv, pc, _ = E.run(ex, f_gw, [mk_enum("WallpaperGroups", g, [])])
+            ok = rv.alts[0][2][0] if rv.concrete() and rv.alts[0][1] == "Ok" else None
+            label = ok.fields[0].fields[0] if ok is not None else None
+            fam = ok.fields[1].alts[0][1] if ok is not None else None
+            strs = [v.fields[0] for v in ok.fields[2].fields] if ok is not None else None
+        except Unsupported as e:
+            label, fam, strs = None, None, None
+            res.notes.append("get_wallpaper_group(%s) not executable in the MIR engine: %s" % (g, e))
+        src = "MIR"
+        if label is None:
+            # fall back to the native data for the label (still the real code)
+            label, fam, strs, src = groups[g]["name"], groups[g]["family"], groups[g]["strings"], "native"
+        qs.append(Query("[%s] get_wallpaper_group labels the group with the requested name (%s)" % (g, src), [label != g], meta=dict(group=g, label=label, fn="wallpaper::get_wallpaper_group")))
+        qs.append(Query("[%s] recorded crystal family is %s" % (g, ITA_FAMILY.get(g)), [fam != ITA_FAMILY.get(g)], meta=dict(group=g, family=fam)))
+        qs.append(Query("[%s] the group's full number of copies: %d operation strings" % (g, len(ITA.get(g, []))), [strs is None or len(strs) != len(ITA.get(g, []))], meta=dict(group=g, strings=strs)))
+    # Wallpaper::new copies name and family; from_group keeps the label and the copy count
+    # the total order on states is the order of their scores
+    qs += order_queries(ex, tier)
+    done = run_queries(qs)
+
+    def replay(q):
+        if q.status == "sat" and not q.model:
+            return ("violated", "%s: found %s" % (q.name, q.meta), dict(kind="table", fact=q.name, meta=q.meta), dict(clause="label", group=q.meta.get("group")))
+        return None
+    for qq in done:
+        record(res, qq, replay)
+    res.functions = used_fns(ex)
+    res.stubs = summaries_used()
+    res.bounds = ["all 7 group arguments; order obligations on p1 single-disc states with symbolic cells"]
+    res.assumptions = ["the process boundary (argument parsing, rayon reduction, files on disk, exit status) is not executed symbolically; main.rs's use of max() is a MIR dataflow fact outside the solver"]
+
+
+def order_queries(ex, tier):
+    """PartialOrd/Ord of both state kinds order states by score"""
+    qs = []
+    data = S.real_data()
+    shape = S.shape_value(data["shapes"]["circle"])
+    exg = E.load(generics={"S": "molecular_shape2::MolecularShape2"})
+    f_pc = E.find_fn(exg, r"^packed::.*::partial_cmp$")
+    f_sc = E.find_fn(exg, r"^packed::<impl at [^>]*>::score$")
+    s1 = S.state("packed", "p1", shape, F("a1"), 1.0, 1.5707963267948966, 0.0, 0.0, 0.0)
+    s2 = S.state("packed", "p1", shape, F("a2"), 1.0, 1.5707963267948966, 0.0, 0.0, 0.0)
+    big = [T.fcmp("flt", 2.5, F("a1")), T.fcmp("flt", 2.5, F("a2")), T.fcmp("flt", F("a1"), 50.0), T.fcmp("flt", F("a2"), 50.0)]
+    sc1, p1, _ = E.run(exg, f_sc, [E.ByRef(s1)])
+    sc2, p2, _ = E.run(exg, f_sc, [E.ByRef(s2)])
+    r, p3, _ = E.run(exg, f_pc, [E.ByRef(s1), E.ByRef(s2)])
+    def some_val(en):
+        return [(c, f[0]) for c, vn, f in en.alts if vn == "Some"]
+    v1, v2 = some_val(sc1), some_val(sc2)
+    if len(v1) == 1 and len(v2) == 1:
+        a_sc, b_sc = v1[0][1], v2[0][1]
+        both = [v1[0][0], v2[0][0]]
+        # result is Some(Less) iff score1 < score2, etc.
+        def is_ord(en, name):
+            out = []
+            for c, vn, f in en.alts:
+                if vn == "Some":
+                    for c2, on, _ in f[0].alts:
+                        if on == name:
+                            out.append(T.band(c, c2))
+            return T.bor(*out)
+        for name, rel in (("Less", T.fcmp("flt", a_sc, b_sc)), ("Greater", T.fcmp("flt", b_sc, a_sc)), ("Equal", T.fcmp("feq", a_sc, b_sc))):
+            qs.append(Query("PackedState::partial_cmp == Some(%s) exactly when the scores compare that way" % name, big + p1 + p2 + p3 + both + [xor(is_ord(r, name), rel)], timeout=120,
+                            meta=dict(fn="PackedState::partial_cmp + score"), witness=big + both))
+    return qs
+
+
+PROPS = {"C12": c12, "C13": c13, "C14": c14, "C15": c15, "C16": c16, "C04": c04, "C10": c10}
+
+
 
 
 
